@@ -14,8 +14,9 @@ def explore(ctx):
                 'input and tree exact-size and end-aligned against PROT_NONE pages, sentinels before the tree; every element of the tree buffer compared with the reference tree, '
                 'size with getTreeNumElements, root helper with the last four. state = configuration; transition = one builder call; non-trivial = 1 row, cols not a multiple of 8, dim>1 or batched')
     ctx.bounds = {'rows': [1, 2, 4, 8, 16] + ([32, 64] if ctx.tier == 'thorough' else []), 'cols': '0..12,15,16,17', 'dim': [1, 2, 3], 'nThreads': [0, 1, 2, 3, 5], 'default_team(OMP_NUM_THREADS)': 4}
+    ctx.bounds['mined literals'] = ctx.lits()
     ctx.assumptions = ['reference tree built from the harness\'s own sponge/permutation', 'row counts are powers of two as the property states']
     for n in ('c08_avx2', 'c08_avx512', 'c08_w8'):
         if n in ctx.bins:
-            ctx.run_step(n, ctx.bins[n])
+            ctx.run_step(n, ctx.bins[n], ['--lits', ctx.lits_arg()])
     ctx.stats['traces_validated_against_impl'] = ctx.stats.get('states_w32', 0)
